@@ -385,6 +385,15 @@ func randCanonical(r *hx.Rand, typ, kind int) fileid.FileID {
 	return f
 }
 
+// smp decides whether case i also goes to the Coq correspondence: every q-th in the quick
+// tier, every t-th in the thorough tier (the Go oracle always sees every case).
+func smp(i, q, t int) bool {
+	if c.Thorough() {
+		return i%t == 0
+	}
+	return i%q == 0
+}
+
 func b64(b []byte) string { return base64.RawURLEncoding.EncodeToString(b) }
 
 // rleB64 builds a file-id string from a raw body through the exported rleEncode; a panic in
@@ -461,7 +470,7 @@ func main() {
 		}
 		f := randCanonical(r, typ, kind)
 		// the Go oracle sees every case; the Coq correspondence a sample of moderate size
-		coq := (i < 180 && i%2 == 0) || (i >= 180 && i%4 == 0) || (c.Thorough() && i%3 == 0)
+		coq := (i < 180 && i%2 == 0) || (i >= 180 && smp(i, 4, 10))
 		if len(f.FileReference) > 320 && i%16 != 0 {
 			coq = false
 		}
@@ -486,7 +495,7 @@ func main() {
 			case 4:
 				m = append(m, "ABCDEFGHIJKLMNOPQRSTUVWXYZabcdefghijklmnopqrstuvwxyz0123456789-_"[r.Intn(64)])
 			}
-			decodeCase("mutated", string(m), i%3 == 0)
+			decodeCase("mutated", string(m), smp(i, 3, 12))
 		}
 	}
 	// non-canonical ids: encode only (fields the format does not carry, negative DC)
@@ -505,8 +514,8 @@ func main() {
 		case 3:
 			f.Type = fileid.Type(r.Range(18, 40))
 		}
-		if s := encodeCase("noncanonical", f, false, i%2 == 0); s != "" {
-			decodeCase("noncanonical", s, i%2 == 0)
+		if s := encodeCase("noncanonical", f, false, smp(i, 2, 8)); s != "" {
+			decodeCase("noncanonical", s, smp(i, 2, 8))
 		}
 	}
 	c.Note("the format carries 32-bit DC / LocalID, no PhotoSize, a photo size source only for photo-like types: ids with more than that are checked against their canonical projection (Go-side restatement of the layout); FileReference nil and empty are identified")
@@ -531,7 +540,7 @@ func main() {
 				}
 			}
 		}
-		rleCase("random", s, i%3 == 0 && len(s) <= 700)
+		rleCase("random", s, smp(i, 3, 15) && len(s) <= 700)
 	}
 	for i := 0; i < c.N(100, 3000); i++ {
 		s := r.Bytes(r.Intn(24))
@@ -540,7 +549,7 @@ func main() {
 				s[j] = 0
 			}
 		}
-		rleDecodeCase("arbitrary", s, i%2 == 0)
+		rleDecodeCase("arbitrary", s, smp(i, 2, 10))
 	}
 
 	// arbitrary strings
@@ -552,14 +561,14 @@ func main() {
 			for j := range b {
 				b[j] = "ABCDEFGHIJKLMNOPQRSTUVWXYZabcdefghijklmnopqrstuvwxyz0123456789-_"[r.Intn(64)]
 			}
-			decodeCase("random-b64", string(b), i%2 == 0)
+			decodeCase("random-b64", string(b), smp(i, 2, 10))
 		case 1: // raw bytes
-			decodeCase("raw-bytes", string(r.Bytes(r.Intn(40))), i%2 == 0)
+			decodeCase("raw-bytes", string(r.Bytes(r.Intn(40))), smp(i, 2, 10))
 		case 2: // random binary body with a plausible version byte
 			body := r.Bytes(r.Intn(60))
 			body = append(body, []byte{4, 4, 4, 2, 3, 0, 5, 255}[r.Intn(8)])
 			if s, ok := rleB64("random-body", body); ok {
-				decodeCase("random-body", s, i%2 == 0)
+				decodeCase("random-body", s, smp(i, 2, 10))
 			}
 		default: // structured body with legacy sub-versions
 			var buf bin.Buffer
@@ -602,7 +611,7 @@ func main() {
 				continue
 			}
 			if s, ok := rleB64("legacy-body", buf.Buf); ok {
-				decodeCase("legacy-body", s, true)
+				decodeCase("legacy-body", s, smp(i, 1, 3))
 			}
 		}
 	}
